@@ -37,7 +37,7 @@ import (
 type c19Item struct {
 	kind   string
 	seed   uint64
-	region int // >= 0: index of the item's own region in the shared arena
+	region int  // >= 0: index of the item's own region in the shared arena
 	light  bool // short payloads: many calls rather than long ones
 }
 
@@ -68,13 +68,35 @@ type c19Shared struct {
 	sp    *refcodec.Spec
 	msgs  []*nas.Message // decoded messages shared read-only by all goroutines
 	gmm   []*refcodec.Msg
+	wires [][]byte // encoded inputs shared read-only by all goroutines (kind "shared-parse"), built lazily without the library
+	once  sync.Once
+}
+
+// sharedWires builds the read-only inputs of kind "shared-parse": serialised lists and
+// identities made by the reference side only (no library call).
+func (sh *c19Shared) sharedWires() [][]byte {
+	sh.once.Do(func() {
+		r := prng.New(0x5ead)
+		for i := 0; i < 6; i++ {
+			mcc, mnc := digits(r, 3), digits(r, 2+r.Intn(2))
+			sh.wires = append(sh.wires,
+				refconv.SerializeRules(genRules(r, 1+r.Intn(3), r.Intn(18))),       // 0 mod 6: QoS rules
+				refconv.SerializeDescs(genDescs(r, 1+r.Intn(4))),                   // 1: QoS flow descriptions
+				pcoContents(r, r.Intn(8)),                                          // 2: protocol configuration options
+				refSubLists(genSubs(r, 1+r.Intn(3))),                               // 3: UE policy section management list
+				refconv.SuciWire(mcc, mnc, digits(r, 2), 0, 1, digits(r, 10), nil), // 4: SUCI
+				refconv.GutiWire(mcc, mnc, r.Uint32()&0xffffff, r.Uint32()),        // 5: 5G-GUTI
+			)
+		}
+	})
+	return sh.wires
 }
 
 func h64(b []byte) uint64 { return core.HashBytes(0, b) }
 
 func hs(s string) uint64 { return core.HashStr(0, s) }
 
-var c19Kinds = []string{"decode", "encode", "cipher1", "cipher2", "cipher3", "mac1", "mac2", "mac3", "accessor", "ident", "lists", "misc", "qos", "pco", "uepolicy", "count-alloc", "shared-encode", "shared-getters", "handoff", "zones", "mac0", "getters"}
+var c19Kinds = []string{"decode", "encode", "cipher1", "cipher2", "cipher3", "mac1", "mac2", "mac3", "accessor", "ident", "lists", "misc", "qos", "pco", "uepolicy", "count-alloc", "shared-encode", "shared-getters", "handoff", "zones", "mac0", "getters", "shared-parse"}
 
 // scr overwrites a slice the library RETURNED to this goroutine (after its digest was
 // taken): the memory is the caller's. If the library handed the same memory to another
@@ -144,6 +166,36 @@ func c19Run(sh *c19Shared, it c19Item) (res uint64) {
 		d := h64(out) ^ hs(fmt.Sprint(err))
 		scr(out)
 		return d
+	case "shared-parse":
+		// one received octet string read by several handlers at once: the parsers and text
+		// conversions are functions of their argument and leave it alone
+		ws := sh.sharedWires()
+		j := r.Intn(len(ws))
+		w := ws[j]
+		switch j % 6 {
+		case 0:
+			var v nasType.QoSRules
+			err := v.UnmarshalBinary(w)
+			return uint64(len(v))<<8 ^ hs(fmt.Sprint(err)) ^ h64(w)
+		case 1:
+			var v nasType.QoSFlowDescs
+			err := v.UnmarshalBinary(w)
+			return uint64(len(v))<<8 ^ hs(fmt.Sprint(err)) ^ h64(w)
+		case 2:
+			p := nasConvert.NewProtocolConfigurationOptions()
+			err := p.UnMarshal(w)
+			return fingerprint(reflect.ValueOf(p)) ^ hs(fmt.Sprint(err)) ^ h64(w)
+		case 3:
+			var v uePolicyContainer.UEPolicySectionManagementListContent
+			err := v.UnmarshalBinary(w)
+			return fingerprint(reflect.ValueOf(&v)) ^ hs(fmt.Sprint(err)) ^ h64(w)
+		case 4:
+			s1, s2, err := nasConvert.SuciToStringWithError(w)
+			return hs(s1) ^ hs(s2)<<1 ^ hs(fmt.Sprint(err)) ^ h64(w)
+		default:
+			_, s1, err := nasConvert.GutiToStringWithError(w)
+			return hs(s1) ^ hs(nasConvert.PlmnIDToString(w[1:4]))<<1 ^ hs(fmt.Sprint(err)) ^ h64(w)
+		}
 	case "getters":
 		// the text getters of a mobile identity built without the library: the very first
 		// library call of this item is a getter
